@@ -146,14 +146,15 @@ class Emission(T.NamedTuple):
     guard: T.Optional[ast.AST]      # None: emitted bare
     helper: T.Optional[Helper]
     call: ast.Call
+    fn: T.Optional[ast.FunctionDef] = None     # the function the emission stands in (a shared helper the visitor delegates to)
 
 
-def emissions(fn: ast.FunctionDef, helpers: T.Dict[str, Helper]) -> T.List[Emission]:
-    """How visitor `fn` emits the operands `node.<attr>` of its node."""
+def emissions(fn: ast.FunctionDef, helpers: T.Dict[str, Helper], methods: T.Optional[T.Dict[str, T.Any]] = None, node_index: int = 1, depth: int = 0) -> T.List[Emission]:
+    """How visitor `fn` emits the operands `node.<attr>` of its node (following `self.<shared helper>(node, ...)` one or two levels)."""
     params = [a.arg for a in fn.args.args]
-    if len(params) < 2:
+    if len(params) <= node_index:
         raise Undecided(f'{fn.name}: no node parameter')
-    node = params[1]
+    node = params[node_index]
     sd = _single_defs(fn)
 
     def operand(e: ast.AST) -> T.Optional[str]:
@@ -169,7 +170,7 @@ def emissions(fn: ast.FunctionDef, helpers: T.Dict[str, Helper]) -> T.List[Emiss
         if isinstance(c.func, ast.Attribute) and c.func.attr == 'accept' and len(c.args) == 1 and norm(c.args[0]) == params[0]:
             a = operand(c.func.value)
             if a is not None:
-                out.append(Emission(a, None, None, c))
+                out.append(Emission(a, None, None, c, fn))
             continue
         h = _self_call(c)
         if h is None and isinstance(c.func, ast.Attribute) and c.func.attr in helpers and c.args and norm(c.args[0]) == params[0]:
@@ -189,8 +190,17 @@ def emissions(fn: ast.FunctionDef, helpers: T.Dict[str, Helper]) -> T.List[Emiss
                     g = bound.get(hp.flag) if hp.flag is not None else None
                     if hp.flag is not None and g is None:
                         raise Undecided(f'{fn.name}: call of {h} without its flag argument')
-                    out.append(Emission(a, g, hp, c))
-    return out
+                    out.append(Emission(a, g, hp, c, fn))
+            continue
+        if h is not None and methods and h in methods and h not in helpers and depth < 2 and not h.startswith('visit_'):
+            # the visitor hands its node to a shared method: the emissions are there
+            callee = methods[h]
+            cparams = [a_.arg for a_ in callee.args.args][1:]
+            idx = [i for i, a_ in enumerate(c.args) if isinstance(a_, ast.Name) and a_.id == node]
+            idx += [cparams.index(k.arg) for k in c.keywords if k.arg in cparams and isinstance(k.value, ast.Name) and k.value.id == node]
+            if len(idx) == 1:
+                out += emissions(callee, helpers, methods, idx[0] + 1, depth + 1)
+    return [e if e.fn is not None else e._replace(fn=fn) for e in out]
 
 
 class GuardEval:
@@ -231,6 +241,8 @@ class GuardEval:
             raise Undecided(f'{self.fn.name}: guard takes the level of {short(a)}')
         if isinstance(e, ast.Attribute) and isinstance(e.value, ast.Name) and e.value.id == self.node and e.attr == self.discr_attr:
             return self.discr_val
+        if isinstance(e, ast.IfExp):
+            return self.ev(e.body) if self.ev(e.test) else self.ev(e.orelse)
         if isinstance(e, ast.UnaryOp) and isinstance(e.op, ast.Not):
             return not self.ev(e.operand)
         if isinstance(e, ast.BoolOp):
